@@ -1,6 +1,6 @@
 """T-int: fail-closed translator of highdicom's straight-line integer helpers to Gallina.
 
-Every run of a check that hooks `obligations(work, keys)` (C01-C05, C08, C12)
+Every run of a check that hooks `obligations(work, keys)` (C01-C06, C08, C11, C12, C17, C19)
 
   1. parses the CURRENT source file under $VERIF_REPO/src/highdicom with `ast`,
   2. translates each target function (or the named fragment of it) into a Gallina
@@ -36,6 +36,27 @@ Grammar (everything else is refused):
                a variable assigned an int on one path and None / unassigned-but-optional on
                another has type `option Z` after the join; using it as an int goes
                through `as_int` (TypeError on None).
+T-int 2 (Base/PyExt.v; every form below is still fail-closed - anything else is refused):
+  tri-state    `bool | None` parameters are `option bool`; `x is None` narrows (match), `bool(x)` of a bool is x,
+               of an int is x != 0; truthiness / == of an un-narrowed tri-state value is refused
+  booleans     boolean locals joined over branches; `and` / `or` / `not` as before
+  enums        `Enum.MEMBER`, `x == / != / is / is not Enum.MEMBER`, `x in / not in (Enum.A, Enum.B)` over a closed
+               enum declared in FUNCTIONS[...]['enums']: the finite inductive E_<Enum> and its eqb are GENERATED from
+               the class body as it is now (plain `class X(Enum)`, `MEMBER = constant` lines, no aliases)
+  strings      `str` / `str | None` parameters are opaque Coq strings: moved around (`str(x)` of a str is x, string
+               literals), never inspected; `len(p)`, `p.startswith('lit')`, `p.endswith('lit')`, `'lit' in p`,
+               `p == 'lit'` on a parameter that is never assigned become explicit extra parameters
+               (a_len_p : Z, a_p_startswith_lit : bool, ...) - the equivalence theorem instantiates them
+  isinstance   `isinstance(p, T)` (p a never-assigned parameter, T dotted names / tuple of them) -> extra bool parameter
+  opaque ==    `p.a.b == np.uint8`, `p == RLELossless`, `p.a in (np.uint8, np.uint16)` (right-hand sides dotted
+               module-level names) -> one extra bool parameter per constant; `p.a.b` attribute chains of parameters
+  raise        any builtin exception class
+  stores       `self.KW = e` for KW in FUNCTIONS[...]['stores'] writes an output slot (initially absent = None;
+               a read before a write on every path is refused; any other attribute store is refused)
+  self maps    `self.<map>[Enum.M]` for a map assigned exactly once in the class by a dict display of string literals
+  floats       `float` / `float | None` are Q / option Q: literals (read as the decimal rational of their source
+               text), module constants declared in ['consts'], `< <= > >= == !=` (py_qlt ...), `abs`; no arithmetic
+  idiom        `int(((e / K) % 1) * K)`, K a power-of-two literal -> e mod K (trusted float steps, see PyExt.v)
 Mutable locals become let-bindings; an `if` without `return` inside is a block of type
 `res (tuple of the variables assigned in either branch)` bound to the rest; an `if`
 containing `return` gets the rest of the statement list pushed into both branches.
